@@ -281,7 +281,12 @@ LEVEL_TEXT = ("Kernel-checked: on M-json normalised_json (for EVERY abstract fee
               "title / link / id / summary / author name / published / updated / tag terms / enclosures; by induction over the entry list) and json_version; on M-mixin (stage 1) "
               "version_rss / version_atom10 / version_atom03 / version_rss10 (the root events of each XML serialisation set the version that names the format) and date_element_parsed "
               "(for every element whose handlers the translator recognises FROM THEIR SOURCE as a simple date element -- pubDate, published, issued, updated, modified, lastBuildDate, "
-              "created, expirationDate, dc:date, dcterms:* -- and every text: the entry's K_parsed is _parse_date(repair(strip(text)))). Tie: both models follow the implementation on "
+              "created, expirationDate, dc:date, dcterms:* -- and every text: the entry's K_parsed is _parse_date(repair(strip(text)))); version_submachine (version and prefix map evolve "
+              "as a sub-machine independent of everything else, for every prefix the format's namespace is bound to); atom_entry_title_verbatim (stage 2); "
+              "description_after_content_is_summary / content_sets_hasContent / second_description_becomes_content (stage 3: summary vs content); guid_not_permalink_verbatim / "
+              "guid_permalink_is_link / alternate_link_is_entry_link (stage 4: the entry's id and link -- a non-permalink guid is stored verbatim, a permalink guid is the link of an entry "
+              "that has none, the alternate HTML link's resolved href is the entry's link and the dict is appended to links). Tie: both models follow the implementation on "
               "generated inputs; the date-element table is regenerated from the handlers' source on every run.")
-LEVEL_NOTE = ("Trusted: Lean kernel + standard axioms; json.load, _parse_date, sanitize_html as parameters of M-json; the XML per-field normalisation through the dedicated handlers is "
+LEVEL_NOTE = ("Trusted: Lean kernel + standard axioms; json.load, _parse_date, sanitize_html as parameters of M-json; the XML per-field normalisation is proved for version, dates, titles, summary / content, id and link (handlers recognised from / "
+              "fingerprinted against their source); author, categories and enclosures go through handlers that are not modelled and are "
               "covered by the differential search over all eight formats, not by a theorem. Open finding: JSON Feed entry.content is a dict, not a list.")
